@@ -391,9 +391,14 @@ def run09(ck):
     rnd = random.Random(ck.seed)
     recs, ex = [], []
     per_family = {}
+    FAR = [math.inf, -math.inf, math.nan, 1e300, -1e300, 1.7e308, -1.7e308, 1e39, -1e39, 10**400, -(10**400), 2**70, -(2**70)]
     for cls in numeric_classes():
         fam = num_family(cls)
         per_family[fam] = per_family.get(fam, 0) + 1
+        for value in FAR if fam != "f32" else ():      # far beyond the declared range (4-octet floats have their own clauses): the conversion error and nothing else
+            out, _p = encode(cls, value)
+            recs.append({"t": "far", "cls": cls.__name__, "out": out})
+            ex.append(f"{cls.__name__}.to_knx({value!r:.30})")
         if fam in ("fix", "scaled8", "f16"):
             U, res, plan = plan_small(cls, fam, ck.tier, rnd)
             for v_u, eps in plan:
@@ -462,14 +467,14 @@ def run09(ck):
         key = {"cls": r["cls"], "out": r["out"], "dec": r.get("dec"), "in_declared_range": sig[4], "anchor": sig[5], "zone": sig[6], "decok": r.get("decok")}
         ck.violation(key, f"numeric datapoint: {ex[idx]} -> {json.dumps({k: v for k, v in r.items() if k not in ('t', 'cls')})} ({len(idxs)} such cases, e.g. also {ex[idxs[-1]]})",
                      {"record": r, "example": ex[idx], "more": [ex[i] for i in idxs[1:6]]})
-    ok = [r for r in recs if r["out"] == "ok" and r.get("decok") == 1]
+    ok = [r for r in recs if r["t"] == "num" and r["out"] == "ok" and r.get("decok") == 1]
     inside = [r for r in ok if ("lo" in r and r["lo"] < r["v"] < r["hi"]) or r.get("anchor") == "in" or r.get("zone") == "in"]
-    far = [r for r in recs if r["out"] == "conv" and ((r["fam"] == "big" and (r["off"] <= -2 if r["anchor"] == "min" else r["off"] >= 1)) or r.get("zone") == "out")]
-    muts = [dict(r, raw=r["raw"] + 1 if r["raw"] < 200 else r["raw"] - 1) for r in inside if r["fam"] == "fix" and r["eps"] == 0 and r["v"] % r["U"] == 0][:10] + \
-           [dict(r, raw=(r["raw"] + 3) % 2048 + (r["raw"] // 2048) * 2048) for r in inside if r["fam"] == "f16" and r["v"] % r["U"] == 0][:10] + \
+    far = [r for r in recs if r["t"] == "num" and r["out"] == "conv" and ((r["fam"] == "big" and (r["off"] <= -2 if r["anchor"] == "min" else r["off"] >= 1)) or r.get("zone") == "out")]
+    muts = [dict(r, raw=r["raw"] + 1 if r["raw"] < 200 else r["raw"] - 1) for r in inside if r.get("fam") == "fix" and r["eps"] == 0 and r["v"] % r["U"] == 0][:10] + \
+           [dict(r, raw=(r["raw"] + 3) % 2048 + (r["raw"] // 2048) * 2048) for r in inside if r.get("fam") == "f16" and r["v"] % r["U"] == 0][:10] + \
            [dict(r, out="conv") for r in inside[:5]] + [dict(r, dec="refused") for r in inside[:5]] + [dict(r, plen=r["plen"] + 1) for r in inside[:5]] + \
            [dict(r, out="ok", plen=r["dlen"], dec="ok", decok=1) for r in far][:10] + \
-           [dict(r, rawoff=2) for r in inside if r["fam"] == "big"][:5]
+           [dict(r, rawoff=2) for r in inside if r.get("fam") == "big"][:5] + [dict(r, out="other:OverflowError") for r in recs if r["t"] == "far"][:5]
     ck.add(evaluations=len(recs), classes=len(numeric_classes()), classes_per_family=per_family, distinct_nontrivial=len({(r["cls"], r["out"], r.get("raw", r.get("rawoff"))) for r in recs}),
            accepted=len(ok), refused=sum(1 for r in recs if r["out"] == "conv"), selftest_corrupted_rejected=selftest(ck, muts), rule="distinct = (class, outcome, payload)")
     ck.sample({"record": recs[5], "example": ex[5]})
